@@ -1,4 +1,4 @@
-(** C11 — extras: matching, simplify_extras, with_extra_marker (top_level_extra: see C05's DNF theorems). *)
+(** C11 — extras: matching, simplify_extras, with_extra_marker, top_level_extra. *)
 From Coq Require Import List Bool NArith.
 From PV Require Import Base.Order Base.CutDef DD.DDModel DD.DDBasics DD.DDAnd DD.DDWf DD.DDRestrict
   Marker.Concrete Marker.Expr Marker.ExtrasProofs.
@@ -58,3 +58,39 @@ Theorem C11_simplify_extras_on_ids : forall (fuel : nat) (E : list str) (s : ist
   SOKwf is_range s' /\ intern (fst s') (m_simplify_extras E (unfold (fst s) x)) = (fst s', r).
 Proof. exact restrict_i_refines_wf. Qed.
 Print Assumptions C11_simplify_extras_on_ids.
+
+(** ** [top_level_extra] (Marker/TopExtra.v: the loop of src/marker/tree.rs over the model's [to_dnf]):
+    it returns [extra == e] only if that expression holds in every satisfying assignment; for a valid name the
+    name is then among the active extras, and an invalid (never-matching) name is returned only for markers
+    that nothing satisfies *)
+From PV Require Import Marker.DnfModel Marker.DnfProofs Marker.TopExtra.
+Theorem C11_top_level_extra_in_every_clause : forall (d : dnf) (e : mexpr),
+  top_level_extra_dnf d = Some e ->
+  (exists (arbitrary : bool) (name : str), e = EExtra false arbitrary name) /\ (forall c, In c d -> In e c).
+Proof. exact top_level_extra_in_every_clause. Qed.
+
+Theorem C11_top_level_extra_sound : forall (pv pfv : N) (t : mdd) (e : mexpr),
+  wfm t -> renderable_dd pv t = true -> top_level_extra t = Some e ->
+  forall en extras, m_eval en extras t = true -> m_eval en extras (expression pv pfv e) = true.
+Proof. exact top_level_extra_sound_all. Qed.
+
+Theorem C11_top_level_extra_active : forall (pv pfv : N) (t : mdd) (name : str),
+  wfm t -> renderable_dd pv t = true -> t <> Leaf true ->
+  top_level_extra t = Some (EExtra false false name) ->
+  forall (en : env) (extras : list str), m_eval en extras t = true ->
+    existsb (str_eqb name) extras = true /\ In name extras.
+Proof. exact top_level_extra_active. Qed.
+
+Theorem C11_top_level_extra_invalid_name : forall (pv pfv : N) (t : mdd) (name : str),
+  wfm t -> renderable_dd pv t = true -> t <> Leaf true ->
+  top_level_extra t = Some (EExtra false true name) ->
+  forall (en : env) (extras : list str), m_eval en extras t = false.
+Proof. exact top_level_extra_arbitrary_unsat. Qed.
+
+Theorem C11_top_level_extra_constants : top_level_extra (Leaf false) = None /\ top_level_extra (Leaf true) = None.
+Proof. split; [exact top_level_extra_false | exact top_level_extra_true]. Qed.
+Print Assumptions C11_top_level_extra_in_every_clause.
+Print Assumptions C11_top_level_extra_sound.
+Print Assumptions C11_top_level_extra_active.
+Print Assumptions C11_top_level_extra_invalid_name.
+Print Assumptions C11_top_level_extra_constants.
